@@ -184,3 +184,36 @@ Proof.
   intros pc t. unfold needs_more. rewrite needs_more_class_spec.
   destruct (pc t); split; auto; discriminate.
 Qed.
+
+Lemma fold_line_count_nl (pre : list str) : Forall (fun ch => ends_nl ch = true) pre ->
+  fold_right (fun ch n => line_count ch + n)%nat 0%nat pre = count_nl (concat pre).
+Proof.
+  induction 1 as [|ch pre Hch _ IH]; cbn [fold_right concat]; [reflexivity|].
+  rewrite count_nl_app, IH. f_equal.
+  unfold line_count, lines_count.
+  assert (Hgo : forall s p, ends_nl s = true -> lines_count_go s p = count_nl s).
+  { unfold ends_nl. induction s as [|c s IHs]; intros p H; [discriminate|].
+    cbn [lines_count_go count_nl]. destruct s as [|d s'].
+    - cbn in H. rewrite H. reflexivity.
+    - change (ends_with_char NL (d :: s') = true) in H.
+      destruct (N.eqb c NL); [f_equal|]; now apply IHs. }
+  rewrite Hgo by exact Hch.
+  assert (Hpos : (1 <= count_nl ch)%nat).
+  { clear -Hch. unfold ends_nl in Hch. induction ch as [|c s IHs]; [discriminate|].
+    cbn [count_nl]. destruct s as [|d s'].
+    - cbn in Hch. rewrite Hch. lia.
+    - change (ends_with_char NL (d :: s') = true) in Hch. specialize (IHs Hch). destruct (N.eqb c NL); lia. }
+  assert (Hf : (line_count_floor <= 1)%nat) by (vm_compute; lia).
+  lia.
+Qed.
+
+(** $LINENO bookkeeping of the standard-input front-end: the line offset in force when a chunk
+    runs is the number of lines read before it (so offset + the position the parser records
+    inside the chunk = the line of the whole input). *)
+Theorem offsets_are_lines_before : forall off pre ch post,
+  Forall (fun c => ends_nl c = true) pre ->
+  In ((off + count_nl (concat pre))%nat, ch) (with_offsets off (pre ++ ch :: post)).
+Proof.
+  intros off pre ch post Hpre. rewrite with_offsets_app, fold_line_count_nl by exact Hpre.
+  apply in_or_app. right. cbn [with_offsets]. now left.
+Qed.
